@@ -31,7 +31,6 @@ import (
 	"syscall"
 	"time"
 
-	"github.com/ftrvxmtrx/fd"
 	"github.com/lugu/qiloop/bus"
 	"github.com/lugu/qiloop/bus/directory"
 	"github.com/lugu/qiloop/bus/net"
@@ -160,28 +159,33 @@ func c12open(ch *c12child, transport string, localPort int) (c12conn, error) {
 			u.Close()
 			return nil, err
 		}
-		err = fd.Put(u, r)
+		// the descriptor exchange of bus/net dialPipe (SCM_RIGHTS, one descriptor each way), with the socket's deadline
+		_, _, err = u.WriteMsgUnix(nil, syscall.UnixRights(int(r.Fd())), nil)
 		r.Close() // (the server holds it now)
 		if err != nil {
 			w.Close()
 			u.Close()
 			return nil, err
 		}
-		fds, err := fd.Get(u, 1, nil)
+		oob := make([]byte, syscall.CmsgSpace(4))
+		_, oobn, _, _, err := u.ReadMsgUnix(nil, oob)
+		var fds []int
+		if err == nil {
+			var msgs []syscall.SocketControlMessage
+			if msgs, err = syscall.ParseSocketControlMessage(oob[:oobn]); err == nil && len(msgs) == 1 {
+				fds, err = syscall.ParseUnixRights(&msgs[0])
+			}
+		}
 		if err != nil || len(fds) != 1 {
+			for _, x := range fds {
+				syscall.Close(x)
+			}
 			w.Close()
 			u.Close()
 			return nil, fmt.Errorf("pipe:// descriptor exchange: %v", err)
 		}
-		// the descriptor arrives in blocking mode (the sender's Fd() call): a non-blocking duplicate lets reads have deadlines
-		// (the server never reads from this pipe, it only keeps its end open)
-		nfd, err := syscall.Dup(int(fds[0].Fd()))
-		fds[0].Close()
-		if err != nil {
-			w.Close()
-			u.Close()
-			return nil, err
-		}
+		// non-blocking, so that reads have deadlines (the server never reads from this pipe, it only keeps its end open)
+		nfd := fds[0]
 		syscall.SetNonblock(nfd, true)
 		p := &c12pipeConn{r: os.NewFile(uintptr(nfd), "pipe-from-server"), w: w, u: u}
 		if err := p.SetReadDeadline(time.Now().Add(time.Second)); err != nil {
@@ -370,10 +374,12 @@ func c12lost(res *hx.Result, rng *hx.Rng, root, outdir, cfg string, rounds int) 
 		for _, transport := range c12transports {
 			var ch *c12child
 			var history []string
-			for _, target := range []int{3, 0, 1, 2} {
-				sp := c12lostSpec{transport: transport, target: target, conns: 3 + rng.Intn(4), calls: 2 + rng.Intn(11), closing: rng.Pick(0, 0, 1)}
+			r0 := rng.Intn(4)
+			for i, target := range []int{3, 0, 1, 2} {
+				// every way of vanishing once per transport and run
+				sp := c12lostSpec{transport: transport, target: target, conns: 3 + rng.Intn(4), calls: 2 + rng.Intn(11), closing: (i + r0) % 2}
 				if transport == "tcp" {
-					sp.closing = rng.Pick(0, 1, 2, 2, 3)
+					sp.closing = (i + r0) % 4
 				}
 				if ch == nil {
 					var err error
